@@ -87,7 +87,16 @@ func editWorld(t *rapid.T, w *World) *World {
 			}
 		case 7: // change a workload's kind (the peer string changes: removed + added)
 			k := rapid.IntRange(0, len(b.Workloads)-1).Draw(t, l+"k")
-			b.Workloads[k].Kind = rapid.SampledFrom(allKinds).Draw(t, l+"newkind")
+			nk := rapid.SampledFrom(allKinds).Draw(t, l+"newkind")
+			namesake := false
+			for j, x := range b.Workloads {
+				if j != k && x.Ns == b.Workloads[k].Ns && x.Name == b.Workloads[k].Name {
+					namesake = true // two controller kinds of one name in one namespace: the recorded finding F-C17-1
+				}
+			}
+			if !namesake {
+				b.Workloads[k].Kind = nk
+			}
 		case 9, 10: // move an ipBlock to another CIDR keeping its ports (one range loses exactly what another gains)
 			var blocks []*IPBlock
 			for i := range b.NPs {
